@@ -235,6 +235,8 @@ def minimizer_structures(ctx):
     accessor(ctx, R, 'minimizer::SplitterList::has_active_items', [(None, lt(I(0), T.fld(a0, 'num_active', 'usize')), {})])
     accessor(ctx, R, 'minimizer::SplitterSet::new', [(None, ('mk', 'minimizer::SplitterSet', 'SplitterSet', (('list', ()), I(0))), None)], name='SplitterSet::new')
     for cfg in ('dev', 'rel'):
+        if ctx.crate(cfg).fn('minimizer::Minimizer::<D, F>::pick_splitter') is None:
+            continue        # the one-line delegate is written in place at its call sites: C04.R6/refine reads the call by its name either way
         an = analyse(ctx, cfg, 'minimizer::Minimizer::<D, F>::pick_splitter', [], uninterpreted=lambda p: p.startswith('minimizer::'))
         for o in an.outs:
             t = an.ip.to_term(o.state, o.value) if o.kind == 'ret' else ('panic',)
